@@ -62,16 +62,17 @@ func (r *vfStepReader) Read(p []byte) (int, error) {
 // ---------------------------------------------------------------- harness state
 
 type vfDReader struct {
-	rd     *Reader
-	isAof  bool
-	start  int64
-	pos    int64 // aof: next logical offset; rdb: bytes delivered
-	left   int64 // rdb: snapshot offset
-	size   int64
-	gen    int  // reset generation at open
-	wgen   int  // aof-writer generation at open
-	sgen   int  // snapshot generation at open
-	closed bool // closed by the harness
+	rd       *Reader
+	isAof    bool
+	start    int64
+	pos      int64 // aof: next logical offset; rdb: bytes delivered
+	left     int64 // rdb: snapshot offset
+	size     int64
+	gen      int  // reset generation at open
+	wgen     int  // aof-writer generation at open
+	sgen     int  // snapshot generation at open
+	closed   bool // closed by the harness
+	switched bool // the replication id was switched while it was open
 }
 
 // vfHist is the oracle's record of one cache generation (between two resets).
@@ -378,9 +379,23 @@ func (d *vfDisk) resetOracle() {
 
 func (d *vfDisk) opSetRun(id string) {
 	var err error
-	if !d.guard("setrun", func() { err = d.st.SetRunId(id) }) {
+	same := id == d.runId && id != ""
+	if !d.guard("setrun", func() {
+		if same {
+			// what StoreChannel.StartPoint(ids) does at every source reconnect
+			_, err = d.st.VerifyRunId([]string{"", "?", id})
+		} else {
+			err = d.st.SetRunId(id)
+		}
+	}) {
 		d.s.Violate("hang", "SetRunId did not return", d.replay(nil))
 		return
+	}
+	if err == nil && !same && d.runId != "" {
+		// replication-id switch: an invalidation event for every open reader
+		for _, vr := range d.readers {
+			vr.switched = true
+		}
 	}
 	if err == nil {
 		d.runId = id
@@ -556,7 +571,7 @@ func (d *vfDisk) opOpen(off int64, crc bool) {
 // invalidated: by the oracle's own account of the property's invalidation
 // events (cache reset; for stream readers also writer replacement).
 func (d *vfDisk) invalidated(vr *vfDReader) bool {
-	if vr.closed || vr.gen != d.gen {
+	if vr.closed || vr.switched || vr.gen != d.gen {
 		return true
 	}
 	if vr.isAof && vr.wgen != d.wgen {
@@ -844,15 +859,23 @@ func (d *vfDisk) step() bool {
 		add(3, func() { d.opClose(vfutil.Pick(r, live)); d.s.Count("op_reader_close") })
 	}
 	add(1, func() { d.opDelRun(); d.s.Count("op_delrun") })
-	if d.aofW == nil && d.rdbW == nil && len(live) == 0 {
-		add(6, func() {
-			if r.Bool() {
-				d.opSetRun(d.runId)
-				d.s.Count("op_rescan")
-			} else {
-				d.nextId++
-				d.opSetRun(fmt.Sprintf("id%d", d.nextId))
-				d.s.Count("op_switch_id")
+	// the same id again (StartPoint at every source reconnect): any time, with
+	// readers and writers open
+	add(5, func() {
+		d.opSetRun(d.runId)
+		d.s.Count("op_same_id_again")
+		if len(live) > 0 {
+			d.s.Count("op_same_id_again_with_open_readers")
+		}
+	})
+	// replication-id switch: between two runs of the input (no writer), readers may be open
+	if d.aofW == nil && d.rdbW == nil {
+		add(3, func() {
+			d.nextId++
+			d.opSetRun(fmt.Sprintf("id%d", d.nextId))
+			d.s.Count("op_switch_id")
+			if len(live) > 0 {
+				d.s.Count("op_switch_id_with_open_readers")
 			}
 		})
 	}
